@@ -37,7 +37,7 @@ func tumbleScenario(r *Run) {
 	offsetMs := int64(0)
 	withOffset := hdr.Chance(1, 2)
 	if withOffset {
-		offsetMs = []int64{0, 500, 1000, 250, 1750, 7000}[hdr.Draw(6)]
+		offsetMs = []int64{0, 500, 1000, 250, 1750, 7000, -500, -10000, -250}[hdr.Draw(9)]
 	}
 	// the source has two time columns: t is its declared (watermarked) time field, u = t + 7.3s another one.
 	// time_field: absent (implicit: t), DESCRIPTOR(t) or DESCRIPTOR(u)
